@@ -1,5 +1,21 @@
 """C12 — operations never modify their inputs; gradients are never aliased."""
+import json
+import os
+import subprocess
+
 from lib.checkdef import default_replay_cmd, run_property
+from lib.report import REPO, VENV_PY, VERIF
+
+
+def _replay(rep, r):
+    if "OWNG" not in r.name and "C12.seed" not in r.name and "C12.frame" not in r.name:
+        return None, False, None
+    env = dict(os.environ, PYTHONPATH=os.path.join(REPO, "src") + os.pathsep + VERIF)
+    p = subprocess.run([VENV_PY, os.path.join(VERIF, "runtime", "c12_replay.py")], capture_output=True, text=True, env=env, timeout=300)
+    lines = [l for l in p.stdout.splitlines() if l.startswith("{")]
+    out = json.loads(lines[-1]) if lines else dict(confirmed=False, note=p.stderr[-300:])
+    path = rep.write_replay(r.name, dict(obligation=r.to_json(), solver_output=r.model, confirmed=out.get("confirmed", False), replay=out))
+    return path, out.get("confirmed", False), out
 
 
 def run(tier, seed):
@@ -7,6 +23,7 @@ def run(tier, seed):
         "C12", tier, seed, level="other",
         deductive=[("c01_step", r"C12\."), ("c02_elem", r"^C12\.frame|^C02\.alias"), ("c05_ops", r"grad_unwritten|result_is_a_copy"), ("c14_seed", r"C12\.")],
         bounded=[("graph_bounded.py", ["--check", "C12"]), ("c12_bounded.py", [])],
+        replay=_replay,
         trusted=["pyvc/graphdom.py + pyvc/realdom.py NumPy axioms (which calls write which array)", "C02.alias classes for ops outside PyVC's subset are observed, not proved"],
         assumptions=[
             "frame of backward_var is proved for the elementwise ops and ApplyMask/UnView (every NumPy write targets an array that is fresh in the call); for the "
